@@ -19,7 +19,8 @@ Reading of the Go constructs (fixed here, trusted):
   ch <- v                                              `plainSend ch v`
   select { case <-ctx.Done(): return; default: }       `pollDone` — accepted only as the last statement of a loop body
   return / continue                                    `ret` / `next`
-  v, err = f.Apply(a)                                  `f a : β × Option ε` (Go returns a value AND an error)
+  v, err = f.Apply(a)                                  `← applyF (f a)` with `f a : β × Option ε` (Go returns a value AND an error);
+                                                       every call site is one counted call (`callsOf`)
   err := fmap.Apply(ctx, a, out)                       `arrow (g a) out` for the arrow family "send each element under
                                                        select with ctx.Done (return nil on Done), then return the error"
   f.Apply(x)  (results dropped)                        `visit x` (ghost log of the user function's calls)
@@ -37,6 +38,8 @@ open Golem.Go
 structure BS (σ β : Type) where
   s : σ
   ems : List (Em β)
+  /-- ghost: how many times the iteration has called the user-supplied function so far -/
+  calls : Nat := 0
 
 /-- loop-body monad: state `BS`, early exit with the way the iteration ends -/
 def BodyM (σ β X : Type) : Type := BS σ β → BS σ β × Except After X
@@ -67,18 +70,23 @@ def pollDone : BodyM σ β X := fun b => (b, .error .poll)
 /-- read / write the goroutine's loop-carried variable -/
 def getS : BodyM σ β σ := fun b => (b, .ok b.s)
 def setS (s : σ) : BodyM σ β Unit := fun b => ({ b with s := s }, .ok ())
-/-- `f.Apply(x)` with the results dropped: the call is recorded in the ghost log -/
-def visit {α : Type} (a : α) : BodyM (List α) β Unit := fun b => ({ b with s := b.s ++ [a] }, .ok ())
+/-- `… = f.Apply(x)`: the results of ONE call of the user-supplied function (the call is counted) -/
+def applyF {γ : Type} (r : γ) : BodyM σ β γ := fun b => ({ b with calls := b.calls + 1 }, .ok r)
+/-- `f.Apply(x)` with the results dropped: the call is counted and recorded in the ghost log -/
+def visit {α : Type} (a : α) : BodyM (List α) β Unit := fun b => ({ b with s := b.s ++ [a], calls := b.calls + 1 }, .ok ())
 /-- `fmap.Apply(ctx, a, out)` for the arrow family of the model: the elements go out one by one under
 `select` with `ctx.Done`, then the error (if any) is returned -/
 def arrow {γ ε : Type} (r : List γ × Option ε) (ch : Nat) (inj : γ → β) : BodyM σ β (Option ε) := fun b =>
-  ({ b with ems := b.ems ++ r.1.map fun v => ⟨ch, inj v, .sel⟩ }, .ok r.2)
+  ({ b with ems := b.ems ++ r.1.map fun v => ⟨ch, inj v, .sel⟩, calls := b.calls + 1 }, .ok r.2)
 
 /-- one loop iteration as `Stage.react` wants it -/
 def runBody (m : BodyM σ β Unit) (s : σ) : σ × List (Em β) × After :=
-  match m ⟨s, []⟩ with
+  match m { s := s, ems := [] } with
   | (b, .ok _) => (b.s, b.ems, .cont)
   | (b, .error a) => (b.s, b.ems, a)
+
+/-- number of calls of the user-supplied function one loop iteration makes -/
+def callsOf (m : BodyM σ β Unit) (s : σ) : Nat := (m { s := s, ems := [] }).1.calls
 
 /-- Go's `(B, error)` result read as the `Except` the hand models use -/
 def toExcept {α γ ε : Type} (f : α → γ × Option ε) (a : α) : Except ε γ :=
